@@ -79,7 +79,8 @@ def families(prop: str, tier: str, seed: int) -> List[Dict[str, Any]]:
         se = list(g.gen_send_enum())
         s = (se if tier != "quick" else se[::3]) + g.gen_hist(seed, 400 * k)
     else:
-        s = list(g.gen_retry_enum()) + g.gen_hist(seed, 500 * k)
+        pc = list(g.gen_retry_percall())
+        s = list(g.gen_retry_enum()) + (pc if tier != "quick" else pc[::3]) + g.gen_hist(seed, 500 * k)
     return s
 
 
